@@ -216,10 +216,10 @@ def parse_unit(path):
             f = FnSpec(spec.strip(), parse_opts(optstr.split()), i + 1)
             b, i = block(i + 1)
             mode = None
-            acc = {"requires": [], "ensures": [], "head": []}
+            acc = {"requires": [], "ensures": [], "head": [], "decreases": []}
             for bl in b:
                 s = bl.strip()
-                if s in ("requires", "ensures", "head"):
+                if s in ("requires", "ensures", "head", "decreases"):
                     mode = s
                     continue
                 if s.startswith("#") and not bl.startswith(" "):
@@ -232,6 +232,7 @@ def parse_unit(path):
             f.requires = split_clauses(acc["requires"])
             f.ensures = split_clauses(acc["ensures"])
             f.head = [x for x in acc["head"] if x.strip()]
+            f.decreases = [x for x in acc["decreases"] if x.strip()]
             u.entries.append(("fn", f))
             cur_fn = f
         elif d == "@attr":
@@ -1056,6 +1057,8 @@ def build_fn(ctx, unit, fs):
         spec_segs += clause_block("requires", fs.requires, fn_label)
     if fs.ensures:
         spec_segs += clause_block("ensures", fs.ensures, fn_label)
+    for h in getattr(fs, "decreases", []):
+        spec_segs.append(Seg("    decreases " + h.strip() + "\n", ("ins", fn_label, "decreases", None)))
     # a single edit can carry only one origin: we emit multi-seg insertions through a marker
     multi = []   # (offset, [Seg], prio)
     if spec_segs:
@@ -1522,6 +1525,7 @@ def build_item(ctx, unit, spec):
         ty = sf.text[toks[c + 1].start:toks[k - 1].end]
         zero = re.sub(r"\b[ui](?:8|16|32|64|128|size)\b", "0", ty)
         zero = re.sub(r"\bchar\b", "' '", zero)
+        zero = re.sub(r"\bf(?:32|64)\b", "0.0", zero)
         edits.append(Edit(toks[k + 1].start, toks[it.tok_hi - 1].start, zero))
         ctx.fire("T4", sf, toks[k].start, f"initializer of opaque table {it.name} elided")
     if spec.opts.get("derive_only"):
